@@ -131,7 +131,7 @@ def flatten_point(ob, point):
             vals += [float(Fr(a)) for a in v]
         else:
             # list of columns
-            vals += [float(Fr(a)) for col in v for a in col]
+            vals += [float(Fr(a)) for col in v[:shape[1]] for a in col]
     return np.array(vals)
 
 
